@@ -109,7 +109,7 @@ pub fn c05(ctx: &Ctx) -> Report {
         s.cancel = true;
         s.cancel_rtx = true;
         s.configs = vec![0, 1];
-        s.set_remote = vec![1];
+        s.set_remote = vec![1, 2];
         runs.push(SliceRun { slice: s, depth: ctx.tier.pick(7, 9) });
         // an agent built with .remote_addr(P) (P a destination / another peer): the stored address
         // changes nothing about which responses complete which transactions
@@ -182,7 +182,7 @@ pub fn c07(ctx: &Ctx) -> Report {
         s.max_sends = 2;
         s.send = vec![(0, Seal::Sha1, 0), (0, Seal::Sha256, 0)];
         s.poll_whens = vec![When::Wake];
-        s.resp = vec![(2, Auth::None, 0), (2, Auth::Sha1(0), 0), (2, Auth::Sha1(1), 0), (2, Auth::Sha1(3), 0), (2, Auth::Sha256(3), 0), (3, Auth::Sha256(1), 0), (2, Auth::Sha256Trunc(1), 0), (2, Auth::Sha256Trunc(3), 0), (2, Auth::Sha256Flipped(1), 0), (2, Auth::MixedSha1Good(1), 0), (2, Auth::MixedSha256Good(1), 0)];
+        s.resp = vec![(2, Auth::None, 0), (2, Auth::Sha1(0), 0), (2, Auth::Sha1(1), 0), (2, Auth::Sha1(3), 0), (2, Auth::Sha256(3), 0), (3, Auth::Sha256(1), 0), (2, Auth::Sha256Trunc(1), 0), (2, Auth::Sha256Trunc(3), 0), (2, Auth::Sha256Flipped(1), 0), (2, Auth::MixedSha1Good(1), 0), (2, Auth::MixedSha256Good(1), 0), (2, Auth::Sha1WireLenFp(1), 0), (2, Auth::Sha256WireLenFp(1), 0)];
         s.set_remote = vec![1, 3];
         s.set_local = vec![0, 3];
         s.rebuild = vec![0];
